@@ -25,10 +25,21 @@ type pair struct {
 }
 
 type Core struct {
-	cur     []pair
+	cur     pvec
 	version int
 	alias   bool // variant (b): hand out engine-owned slices with spare capacity
 }
+
+// pvec is an immutable sorted sequence of pairs kept in chunks: a write copies
+// the chunk it touches and the (short) list of chunks, never the whole store,
+// so that many small writes against a store of 10^5 pairs stay cheap while
+// every version remains a valid snapshot for the cursors that hold it.
+type pvec struct {
+	chunks [][]pair
+	n      int
+}
+
+const maxChunk = 512
 
 //go:norace
 func pairSum(k, v []byte) uint64 {
@@ -104,60 +115,277 @@ func lowerBound(ps []pair, k []byte) int {
 	return lo
 }
 
+// sortPairs: stable merge sort by key, written out here because everything
+// that touches engine state must stay invisible to the race detector.
+//
 //go:norace
-func (c *Core) snapshot() []pair { return c.cur }
+func sortPairs(a []pair) {
+	if len(a) < 2 {
+		return
+	}
+	tmp := make([]pair, len(a))
+	for w := 1; w < len(a); w *= 2 {
+		for lo := 0; lo < len(a); lo += 2 * w {
+			mid, hi := lo+w, lo+2*w
+			if mid > len(a) {
+				mid = len(a)
+			}
+			if hi > len(a) {
+				hi = len(a)
+			}
+			i, j, k := lo, mid, lo
+			for i < mid && j < hi {
+				if cmpBytes(a[j].k, a[i].k) < 0 {
+					tmp[k] = a[j]
+					j++
+				} else {
+					tmp[k] = a[i]
+					i++
+				}
+				k++
+			}
+			for i < mid {
+				tmp[k] = a[i]
+				i++
+				k++
+			}
+			for j < hi {
+				tmp[k] = a[j]
+				j++
+				k++
+			}
+		}
+		for i := range a {
+			a[i] = tmp[i]
+		}
+	}
+}
+
+//go:norace
+func mkVec(ps []pair) pvec {
+	v := pvec{n: len(ps)}
+	for i := 0; i < len(ps); i += maxChunk / 2 {
+		j := i + maxChunk/2
+		if j > len(ps) {
+			j = len(ps)
+		}
+		v.chunks = append(v.chunks, ps[i:j:j])
+	}
+	return v
+}
+
+//go:norace
+func (v pvec) flat() []pair {
+	out := make([]pair, 0, v.n)
+	for _, c := range v.chunks {
+		out = append(out, c...)
+	}
+	return out
+}
+
+// find returns the position (chunk, index) of the first pair whose key is >= k
+// (chunk == len(chunks) when there is none) and whether that key equals k.
+//
+//go:norace
+func (v pvec) find(k []byte) (ci, pi int, found bool) {
+	lo, hi := 0, len(v.chunks)
+	for lo < hi {
+		m := (lo + hi) / 2
+		c := v.chunks[m]
+		if cmpBytes(c[len(c)-1].k, k) < 0 {
+			lo = m + 1
+		} else {
+			hi = m
+		}
+	}
+	if lo == len(v.chunks) {
+		return lo, 0, false
+	}
+	c := v.chunks[lo]
+	i := lowerBound(c, k)
+	return lo, i, i < len(c) && cmpBytes(c[i].k, k) == 0
+}
+
+//go:norace
+func (c *Core) snapshot() pvec { return c.cur }
 
 //go:norace
 func (c *Core) get(k []byte) ([]byte, bool) {
-	ps := c.cur
-	i := lowerBound(ps, k)
-	if i < len(ps) && cmpBytes(ps[i].k, k) == 0 {
-		return ps[i].v, true
+	v := c.cur
+	ci, pi, found := v.find(k)
+	if found {
+		return v.chunks[ci][pi].v, true
 	}
 	return nil, false
 }
 
 //go:norace
-func (c *Core) put(k, v []byte) {
-	ps := c.cur
-	i := lowerBound(ps, k)
-	np := mkPair(k, v)
-	if i < len(ps) && cmpBytes(ps[i].k, k) == 0 {
-		ns := make([]pair, len(ps))
-		for j := 0; j < len(ps); j++ {
-			ns[j] = ps[j]
-		}
-		ns[i] = np
-		c.cur = ns
-	} else {
-		ns := make([]pair, len(ps)+1)
-		for j := 0; j < i; j++ {
-			ns[j] = ps[j]
-		}
-		ns[i] = np
-		for j := i; j < len(ps); j++ {
-			ns[j+1] = ps[j]
-		}
-		c.cur = ns
+func (c *Core) put(k, val []byte) {
+	v := c.cur
+	np := mkPair(k, val)
+	ci, pi, found := v.find(k)
+	top := make([][]pair, len(v.chunks), len(v.chunks)+1)
+	for j := range v.chunks {
+		top[j] = v.chunks[j]
 	}
+	n := v.n
+	switch {
+	case found:
+		old := v.chunks[ci]
+		nc := make([]pair, len(old))
+		for j := range old {
+			nc[j] = old[j]
+		}
+		nc[pi] = np
+		top[ci] = nc
+	case len(v.chunks) == 0:
+		top = append(top, []pair{np})
+		n++
+	default:
+		if ci == len(v.chunks) { // beyond the last key: append to the last chunk
+			ci = len(v.chunks) - 1
+			pi = len(v.chunks[ci])
+		}
+		old := v.chunks[ci]
+		nc := make([]pair, len(old)+1)
+		for j := 0; j < pi; j++ {
+			nc[j] = old[j]
+		}
+		nc[pi] = np
+		for j := pi; j < len(old); j++ {
+			nc[j+1] = old[j]
+		}
+		n++
+		if len(nc) > maxChunk {
+			h := len(nc) / 2
+			top = append(top, nil)
+			for j := len(top) - 1; j > ci+1; j-- {
+				top[j] = top[j-1]
+			}
+			top[ci] = nc[:h:h]
+			top[ci+1] = nc[h:]
+		} else {
+			top[ci] = nc
+		}
+	}
+	c.cur = pvec{chunks: top, n: n}
 	c.version++
 }
 
 //go:norace
 func (c *Core) del(k []byte) {
-	ps := c.cur
-	i := lowerBound(ps, k)
-	if i < len(ps) && cmpBytes(ps[i].k, k) == 0 {
-		ns := make([]pair, len(ps)-1)
-		for j := 0; j < i; j++ {
-			ns[j] = ps[j]
+	v := c.cur
+	ci, pi, found := v.find(k)
+	if found {
+		old := v.chunks[ci]
+		var top [][]pair
+		if len(old) == 1 {
+			top = make([][]pair, 0, len(v.chunks)-1)
+			for j := range v.chunks {
+				if j != ci {
+					top = append(top, v.chunks[j])
+				}
+			}
+		} else {
+			top = make([][]pair, len(v.chunks))
+			for j := range v.chunks {
+				top[j] = v.chunks[j]
+			}
+			nc := make([]pair, len(old)-1)
+			for j := 0; j < pi; j++ {
+				nc[j] = old[j]
+			}
+			for j := pi + 1; j < len(old); j++ {
+				nc[j-1] = old[j]
+			}
+			top[ci] = nc
 		}
-		for j := i + 1; j < len(ps); j++ {
-			ns[j-1] = ps[j]
-		}
-		c.cur = ns
+		c.cur = pvec{chunks: top, n: v.n - 1}
 	}
 	c.version++
+}
+
+// putMany applies the pairs in order (a later duplicate wins) as one new
+// version. Small batches touch their chunks one by one; large ones are merged
+// with the whole store in a single pass: O(m log m + n), not O(m * n).
+//
+//go:norace
+func (c *Core) putMany(ks, vs [][]byte) {
+	if len(ks) <= 8 || len(ks)*40 < c.cur.n {
+		for i := range ks {
+			c.put(ks[i], vs[i])
+		}
+		return
+	}
+	add := make([]pair, len(ks))
+	for i := range ks {
+		add[i] = mkPair(ks[i], vs[i])
+	}
+	sortPairs(add) // stable: among equal keys the last mention stays last
+	ps := c.cur.flat()
+	ns := make([]pair, 0, len(ps)+len(add))
+	i, j := 0, 0
+	for i < len(ps) || j < len(add) {
+		if j < len(add) {
+			for j+1 < len(add) && cmpBytes(add[j+1].k, add[j].k) == 0 {
+				j++
+			}
+		}
+		switch {
+		case j >= len(add):
+			ns = append(ns, ps[i])
+			i++
+		case i >= len(ps):
+			ns = append(ns, add[j])
+			j++
+		default:
+			switch d := cmpBytes(ps[i].k, add[j].k); {
+			case d < 0:
+				ns = append(ns, ps[i])
+				i++
+			case d > 0:
+				ns = append(ns, add[j])
+				j++
+			default:
+				ns = append(ns, add[j])
+				i++
+				j++
+			}
+		}
+	}
+	c.cur = mkVec(ns)
+	c.version += len(ks)
+}
+
+// delMany removes the keys as one new version.
+//
+//go:norace
+func (c *Core) delMany(ks [][]byte) {
+	if len(ks) <= 8 || len(ks)*40 < c.cur.n {
+		for i := range ks {
+			c.del(ks[i])
+		}
+		return
+	}
+	rm := make([]pair, len(ks))
+	for i := range ks {
+		rm[i] = pair{k: ks[i]}
+	}
+	sortPairs(rm)
+	ps := c.cur.flat()
+	ns := make([]pair, 0, len(ps))
+	j := 0
+	for i := 0; i < len(ps); i++ {
+		for j < len(rm) && cmpBytes(rm[j].k, ps[i].k) < 0 {
+			j++
+		}
+		if j < len(rm) && cmpBytes(rm[j].k, ps[i].k) == 0 {
+			continue
+		}
+		ns = append(ns, ps[i])
+	}
+	c.cur = mkVec(ns)
+	c.version += len(ks)
 }
 
 // KV is the JSON form of a stored pair.
@@ -168,7 +396,11 @@ type KV struct {
 
 func NewCore(init []KV, alias bool) *Core {
 	c := &Core{alias: alias}
-	// build the first version in one go (repeated put would copy the slice per pair)
+	// build the first version in one go
+	ps := make([]pair, len(init))
+	for i, kv := range init {
+		ps[i] = mkPair([]byte(kv.K), []byte(kv.V))
+	}
 	sorted := true
 	for i := 1; i < len(init); i++ {
 		if init[i-1].K >= init[i].K {
@@ -176,18 +408,18 @@ func NewCore(init []KV, alias bool) *Core {
 			break
 		}
 	}
-	if sorted {
-		ps := make([]pair, len(init))
-		for i, kv := range init {
-			ps[i] = mkPair([]byte(kv.K), []byte(kv.V))
+	if !sorted {
+		sortPairs(ps) // stable; a later duplicate wins
+		out := ps[:0]
+		for i := range ps {
+			if i+1 < len(ps) && cmpBytes(ps[i+1].k, ps[i].k) == 0 {
+				continue
+			}
+			out = append(out, ps[i])
 		}
-		c.cur = ps
-		return c
+		ps = out
 	}
-	for _, kv := range init {
-		c.put([]byte(kv.K), []byte(kv.V))
-	}
-	c.version = 0
+	c.cur = mkVec(ps)
 	return c
 }
 
@@ -195,7 +427,7 @@ func NewCore(init []KV, alias bool) *Core {
 // longer match the checksum taken when the engine stored them (i.e. somebody
 // other than the engine modified engine-owned memory).
 func (c *Core) Dump() ([]KV, int) {
-	ps := c.snapshot()
+	ps := c.snapshot().flat()
 	out := make([]KV, 0, len(ps))
 	corrupt := 0
 	for _, p := range ps {
@@ -293,7 +525,7 @@ func (h *Handle) after() {
 
 func NewHandle(core *Core, client int, faults []Fault, lazy bool, runTag string) *Handle {
 	// the cap on storage calls scales with the store (a statement list makes a few passes over it at most)
-	return &Handle{core: core, client: client, faults: faults, lazySnap: lazy, runTag: runTag, poll: -1, stepCap: stepCap + 12*len(core.snapshot())}
+	return &Handle{core: core, client: client, faults: faults, lazySnap: lazy, runTag: runTag, poll: -1, stepCap: stepCap + 12*core.snapshot().n}
 }
 
 var _ kvql.Storage = (*Handle)(nil)
@@ -401,9 +633,11 @@ func (h *Handle) BatchPut(kvs []kvql.KVPair) error {
 			}
 		}
 	}
+	bk, bv := make([][]byte, n), make([][]byte, n)
 	for i := 0; i < n; i++ {
-		h.core.put(kvs[i].Key, kvs[i].Value)
+		bk[i], bv[i] = kvs[i].Key, kvs[i].Value
 	}
+	h.core.putMany(bk, bv)
 	if f != nil {
 		return &SimFault{ev.Err}
 	}
@@ -443,9 +677,7 @@ func (h *Handle) BatchDelete(keys [][]byte) error {
 			}
 		}
 	}
-	for i := 0; i < n; i++ {
-		h.core.del(keys[i])
-	}
+	h.core.delMany(keys[:n])
 	if f != nil {
 		return &SimFault{ev.Err}
 	}
@@ -453,11 +685,11 @@ func (h *Handle) BatchDelete(keys [][]byte) error {
 }
 
 type simCursor struct {
-	h    *Handle
-	id   int
-	snap []pair
-	have bool
-	pos  int
+	h      *Handle
+	id     int
+	snap   pvec
+	have   bool
+	ci, pi int
 }
 
 func (h *Handle) Cursor() (kvql.Cursor, error) {
@@ -492,7 +724,7 @@ func (c *simCursor) Seek(k []byte) error {
 		return &SimFault{ev.Err}
 	}
 	c.ensure()
-	c.pos = lowerBound(c.snap, k)
+	c.ci, c.pi, _ = c.snap.find(k)
 	return nil
 }
 
@@ -504,12 +736,14 @@ func (c *simCursor) Next() ([]byte, []byte, error) {
 		return nil, nil, &SimFault{ev.Err}
 	}
 	c.ensure()
-	if c.pos >= len(c.snap) {
+	if c.ci >= len(c.snap.chunks) {
 		ev.End = true
 		return nil, nil, nil
 	}
-	p := c.snap[c.pos]
-	c.pos++
+	p := c.snap.chunks[c.ci][c.pi]
+	if c.pi++; c.pi >= len(c.snap.chunks[c.ci]) {
+		c.ci, c.pi = c.ci+1, 0
+	}
 	ev.Key = string(p.k)
 	k := c.h.out(p.k)
 	v := c.h.out(p.v)
